@@ -52,7 +52,9 @@ class _RawMixin:
     def _enter_raw(self):
         self.raw = True
         self._auth = self
-        self._auth_complete = True
+        # with per-direction algorithms (delayed compression!) the raw peer
+        # must know when authentication really completes
+        self._auth_complete = not self.asym
         self._saved_channels = self._channels
         self._channels = _AnyChan(self)
         if self._waiter and not self._waiter.done():
@@ -78,6 +80,40 @@ class _RawMixin:
         if self.no_strict:
             # a peer without strict key exchange ignores the other side's offer
             self._strict_kex = False
+        if self.asym:
+            # the other side supports everything we list: the first name of
+            # each of our per-direction lists is the negotiated one
+            for key, attr in (('enc', '_enc_alg'), ('mac', '_mac_alg'),
+                              ('cmp', '_cmp_alg')):
+                if key in self.asym:
+                    cs, sc = self.asym[key]
+                    setattr(self, attr + '_cs', cs[0].encode())
+                    setattr(self, attr + '_sc', sc[0].encode())
+
+    # per-direction algorithm lists: {'enc'|'mac'|'cmp': ([c->s names], [s->c names])}
+    asym = None
+
+    def send_packet(self, pkttype, *args, **kw):
+        if pkttype == 20 and self.asym:
+            from asyncssh.packet import SSHPacket, NameList, Byte
+            body = b''.join(args)
+            pk = SSHPacket(body)
+            cookie = pk.get_bytes(16)
+            lists = [pk.get_namelist() for _ in range(10)]
+            rest = pk.get_remaining_payload()
+            for key, (i, j) in (('enc', (2, 3)), ('mac', (4, 5)),
+                                ('cmp', (6, 7))):
+                if key in self.asym:
+                    cs, sc = self.asym[key]
+                    lists[i] = [x.encode() for x in cs]
+                    lists[j] = [x.encode() for x in sc]
+            body = cookie + b''.join(NameList(l) for l in lists) + rest
+            if self.is_server():
+                self._server_kexinit = Byte(20) + body
+            else:
+                self._client_kexinit = Byte(20) + body
+            args = (body,)
+        return super().send_packet(pkttype, *args, **kw)
 
     def _force_send(self, pkttype, body):
         """Put a packet on the wire now, bypassing the deferral of packets
@@ -107,6 +143,8 @@ class _RawMixin:
 
     def process_packet(self, pkttype, pktid, packet):
         if self.raw and (pkttype >= 50 or pkttype in (3, 5, 6, 7)):
+            if pkttype == 52 and self.asym:
+                self._auth_complete = True
             payload = packet.get_full_payload()
             self.inbox.append((pkttype, payload))
             if self.on_packet is not None:
@@ -116,6 +154,8 @@ class _RawMixin:
 
     def raw_send(self, pkttype, *args):
         self.send_packet(pkttype, *args)
+        if pkttype == 52 and self.asym:
+            self._auth_complete = True
 
     def take(self):
         out, self.inbox = self.inbox, []
@@ -145,6 +185,8 @@ class RawClientConnection(_RawMixin, _c.SSHClientConnection):
 class RawServerConnection(_RawMixin, _c.SSHServerConnection):
     """Server-side raw peer: real version exchange / key exchange (host key
     signature included), everything else is recorded and scripted."""
+    _packet_handlers = dict(_c.SSHServerConnection._packet_handlers)
+    _packet_handlers[20] = _RawMixin._raw_process_kexinit
 
     def __init__(self, *a, **kw):
         super().__init__(*a, **kw)
@@ -154,8 +196,15 @@ class RawServerConnection(_RawMixin, _c.SSHServerConnection):
         self._auth_complete = True
         self._channels = _AnyChan(self)
 
+    def connection_made(self, transport):
+        if self.asym:
+            # delayed compression: authentication completes when we say so
+            self._auth_complete = False
+        super().connection_made(transport)
 
-async def raw_listen(host, port, on_conn, no_strict=False, **kwargs):
+
+async def raw_listen(host, port, on_conn, no_strict=False, asym=None,
+                     **kwargs):
     """Listen with raw server connections; on_conn(conn) is called for each
     new connection object (before any packet is processed)."""
     loop = asyncio.get_event_loop()
@@ -166,6 +215,7 @@ async def raw_listen(host, port, on_conn, no_strict=False, **kwargs):
     def factory():
         conn = RawServerConnection(loop, options, wait=None)
         conn.no_strict = no_strict
+        conn.asym = asym
         on_conn(conn)
         return conn
 
@@ -174,7 +224,7 @@ async def raw_listen(host, port, on_conn, no_strict=False, **kwargs):
 
 
 async def raw_connect(host, port, hold_service=False, no_strict=False,
-                      cleartext_inject=None, **kwargs):
+                      cleartext_inject=None, asym=None, **kwargs):
     """Connect, run the key exchange and service request, then go raw
     (hold_service: go raw right after NEWKEYS, before SERVICE_REQUEST)."""
     loop = asyncio.get_event_loop()
@@ -190,6 +240,7 @@ async def raw_connect(host, port, hold_service=False, no_strict=False,
         conn.hold_service = hold_service
         conn.no_strict = no_strict
         conn.cleartext_inject = cleartext_inject
+        conn.asym = asym
         return conn
 
     return await _c._connect(options, None, loop, 0, None, factory,
